@@ -31,7 +31,11 @@ Inductive stmt :=
 | Guarded (h:nat) (b:stmt)      (* if <x holds a file>: b   —  `if opened_file: x.close()`,
                                    `if hasattr(x, "close"): x.close()`: b is skipped only when
                                    x does not hold a file lasio opened *)
-| Call (b:stmt).                (* inlined call of a translated helper: its `return` ends the helper only *)
+| Call (b:stmt).                (* inlined call of a translated helper: its `return` ends the helper only.
+                                   The handle the helper returns is the caller's variable from here on (shared id):
+                                   the translator only emits Call when nothing can raise between the helper's
+                                   `return` and the store into that variable (unpacking target of the helper's
+                                   exact arity, plain names before the handle's position) *)
 
 (* with open(..) as x: body *)
 Definition With (h:nat) (b:stmt) : stmt := Seq (Open h) (TryFinally b (Close h)).
